@@ -312,7 +312,7 @@ def see_through(e):
     """strip smart-pointer derefs, casts, & and * so that paths compare structurally"""
     while isinstance(e, dict):
         k = e.get('k')
-        if k == 'call' and e.get('op') in ('->', '*') and e.get('recv') is not None:
+        if k == 'call' and e.get('op') in ('->', '*') and e.get('recv') is not None and not e.get('a'):      # unary: a binary member operator* is a product
             e = e['recv']; continue
         if k == 'call' and callee(e).endswith(('::get', '::operator->', '::operator*')) and e.get('recv') is not None and 'unique_ptr' in (e.get('cls') or ''):
             e = e['recv']; continue
